@@ -14,6 +14,12 @@ Tie to the source
        Explored call patterns: random / product initial states of bond dimension 1..maximal in any gauge (none, 'first', 'last'),
        runs ended by max_sweeps or by energy_tol / Schmidt_tol (documented stop rule checked on every reported output), iterator
        on / off, and warm restarts of dmrg_ on the re-gauged output of an earlier run (energy must not rise above the input's).
+       Explored argument forms (every documented way of saying the same thing must give a result that satisfies the property; a
+       valid input that raises is reported as `c09:exception`): H as a bare MPO, a one-element sequence, a list or a tuple of
+       MPOs ("MpsMpoOBC | Sequence"); `project` as list or tuple; opts_svd with both / one / none of D_total, tol (the empty
+       dictionary = no truncation) or None when only '1site' sweeps run; user-supplied opts_eigs that name or omit `ncv` / `which`
+       (documented defaults of yastn.eigs: which='SR') or opts_eigs=None; arguments equal to their documented default passed or
+       left out; H with a constant energy offset of either sign (lowest level of the sector = smallest or largest magnitude).
 This module also hosts the run-time monitor and the random Hermitian-MPO generators shared with C10.
 """
 import json
@@ -485,7 +491,7 @@ def split_terms(terms, k):
     """split a Hermitian term list into k Hermitian groups (h.c. partners are adjacent and share the site set)"""
     groups = [[] for _ in range(k)]
     for t in terms:
-        groups[(min(t[2]) + len(t[2])) % k].append(t)
+        groups[(min(t[2]) + len(t[2])) % k if t[2] else 0].append(t)   # a term without sites (c * identity) goes to group 0
     return [g for g in groups if g]
 
 
@@ -552,6 +558,41 @@ def known_defect_listed(key=KNOWN_DEFECT_KEY):
 # one DMRG case: real run + trace correspondence + oracles
 # ==========================================================================================================
 
+def gen_opts_svd(rng, Dsvd, methods):
+    """the documented forms of `opts_svd` (every entry is an optional keyword of svd_with_truncation: tol=0, D_total=inf):
+    both entries, only D_total, only tol, the EMPTY dictionary (no truncation at all), and None when no '2site' sweep is run
+    (the option is documented for method='2site' only)"""
+    if all(m == "1site" for m in methods) and rng.random() < 0.4:
+        return None
+    form = rng.choice(["full", "full", "D_total", "tol", "empty"])
+    tol = rng.choice([1e-14, 1e-12])
+    return {"full": {"D_total": max(2, Dsvd), "tol": tol}, "D_total": {"D_total": max(2, Dsvd)}, "tol": {"tol": tol}, "empty": {}}[form]
+
+
+def gen_opts_eigs(rng):
+    """user-supplied `opts_eigs` ("options passed to yastn.eigs"): Lanczos (hermitian=True; H is Hermitian) with the size of the
+    Krylov space and the targeted end of the spectrum either named or left to the documented defaults of yastn.eigs
+    (ncv=10, which='SR': smallest real part)"""
+    o = {"hermitian": True}
+    if rng.random() < 0.85:
+        o["ncv"] = rng.choice([3, 4, 6])
+    if rng.random() < 0.5:
+        o["which"] = "SR"
+    return o
+
+
+def gen_shift(rng):
+    """constant energy offset c * identity (Hterm without operators) added to H with probability 0.4: moves the spectrum of the
+    sector to either side of zero (lowest level = largest or smallest magnitude) without changing any eigenvector"""
+    if rng.random() < 0.6:
+        return None
+    return round(rng.choice([-1, 1]) * rng.uniform(0.5, 6.0), 3)
+
+
+def svd_label(o):
+    return "None" if o is None else "empty" if not o else "+".join(sorted(o))
+
+
 def gen_case(rng, quick, kind):
     """kind: 'trace' (any N, few sweeps, all option combinations) | 'converge' (small N, maximal D, many sweeps)
     | 'project' (excited state via penalties) | 'lowD' (as 'converge' but started from bond dimension 1..3 or from a product
@@ -577,6 +618,9 @@ def gen_case(rng, quick, kind):
         Dsvd = 2 ** N
     cplx = rng.random() < 0.3
     terms = gen_terms(rng, family, sym, N, cplx=cplx, long_range=rng.random() < 0.4)
+    shift = gen_shift(rng)
+    if shift is not None:
+        terms.append([shift, 0.0, [], []])
     case = {
         "kind": kind, "family": family, "sym": sym, "N": N, "terms": terms,
         "nsplit": rng.choice([1, 1, 2, 3]) if kind == "trace" else rng.choice([1, 2, 2, 3]),
@@ -585,9 +629,13 @@ def gen_case(rng, quick, kind):
         # gauge of the initial state: False = as generated (not canonical), True = canonize_(to='first'), 'last' = canonize_(to='last')
         "psi_seed": rng.randrange(1 << 30), "canon": rng.choice([False, True, "last"]) if kind == "trace" else rng.random() < 0.5,
         "methods": methods,
-        "opts_svd": {"D_total": max(2, Dsvd), "tol": rng.choice([1e-14, 1e-12])},
-        "opts_eigs": {"hermitian": True, "ncv": rng.choice([3, 4, 6]), "which": "SR"},
+        "opts_svd": gen_opts_svd(rng, Dsvd, methods),
+        "opts_eigs": gen_opts_eigs(rng),
         "precompute": rng.random() < 0.5,
+        # how H reaches dmrg_ ("MpsMpoOBC | Sequence"): a single MPO bare or as a one-element sequence, a sum as list or tuple;
+        # `project` ("Sequence[...]") as list or tuple; arguments equal to their documented default passed or left out
+        "hcontainer": rng.choice(["bare", "bare", "list", "tuple", "tuple"]), "project_container": rng.choice(["list", "tuple"]),
+        "omit_defaults": rng.random() < 0.3,
         "nproj": nproj, "proj_seeds": [rng.randrange(1 << 30) for _ in range(nproj)],
         "penalties": [gen_penalty(rng) for _ in range(nproj)],
         "hfactors": gen_hfactors(rng),
@@ -623,6 +671,8 @@ def gen_case_extra(rng, quick, kind):
         nsw = 30
         case["methods"] = [m] * nsw if m != "switch" else ["2site"] * rng.choice([1, 2, 3]) + ["1site"] * nsw
         case["methods"] = case["methods"][:nsw]
+        if m == "1site" and rng.random() < 0.4:
+            case["opts_svd"] = None   # no '2site' sweep: opts_svd is not needed
         both = rng.random() < 0.6
         which = rng.choice(["energy", "Schmidt"])
         case["energy_tol"] = gen_tol(rng, 1, 12) if both or which == "energy" else None
@@ -713,6 +763,17 @@ def initial_state(case, ops, I):
     return psi
 
 
+def wrap_H(Hs, container):
+    """H as handed to dmrg_: one MPO bare, or the MPOs of a sum in a list / tuple (also a one-element sequence)"""
+    if len(Hs) == 1 and container not in ("list", "tuple"):
+        return Hs[0]
+    return tuple(Hs) if container == "tuple" else list(Hs)
+
+
+DMRG_DEFAULTS = {"project": None, "method": "1site", "max_sweeps": 1, "iterator": False, "opts_eigs": None, "opts_svd": None,
+                 "precompute": False}   # signature / docstring of dmrg_
+
+
 def run_dmrg(case, monitor=True, precompute=None, nsplit=None):
     """execute the real dmrg_ for a case; returns a dict with the per-sweep outputs, the final state, the monitor"""
     import yastn
@@ -722,7 +783,7 @@ def run_dmrg(case, monitor=True, precompute=None, nsplit=None):
     nsplit = case["nsplit"] if nsplit is None else nsplit
     precompute = case["precompute"] if precompute is None else precompute
     I, Hs, parts = build_hamiltonian(ops, N, case["terms"], nsplit, case.get("hfactors"))
-    H = Hs[0] if len(Hs) == 1 else Hs
+    H = wrap_H(Hs, case.get("hcontainer", "bare"))
     psi = initial_state(case, ops, I)
     if case.get("psi_factor") is not None:   # only used by initial_factor_probe
         psi = case["psi_factor"] * psi
@@ -737,13 +798,20 @@ def run_dmrg(case, monitor=True, precompute=None, nsplit=None):
     pens = list(case.get("penalties") or [])
     pens = (pens + [None] * len(project))[:len(project)]
     project_arg = [phi if p is None else (p, phi) for p, phi in zip(pens, project)]
+    if case.get("project_container") == "tuple":
+        project_arg = tuple(project_arg)
     v0 = dense_mps(psi, ops)
     methods = case["methods"]
     method = yastn.Method(methods[0])
     opts_eigs = None if case.get("use_default_eigs") else dict(case["opts_eigs"])
     use_iterator = case.get("iterator", True)   # False: plain call, only the final output is returned (no method switches)
     kw = dict(project=project_arg or None, method=method if use_iterator else methods[0], max_sweeps=len(methods),
-              iterator=use_iterator, opts_eigs=opts_eigs, opts_svd=dict(case["opts_svd"]), precompute=precompute)
+              iterator=use_iterator, opts_eigs=opts_eigs, opts_svd=None if case["opts_svd"] is None else dict(case["opts_svd"]),
+              precompute=precompute)
+    if case.get("omit_defaults"):   # arguments equal to their documented default are left out of the call
+        if all(m == "1site" for m in methods):
+            kw["method"] = "1site"
+        kw = {k: v for k, v in kw.items() if not (k in DMRG_DEFAULTS and type(v) is type(DMRG_DEFAULTS[k]) and v == DMRG_DEFAULTS[k])}
     if case.get("Schmidt_tol") is not None:
         kw["Schmidt_tol"] = case["Schmidt_tol"]
     if case.get("energy_tol") is not None:
@@ -816,7 +884,7 @@ def has_maximal_bonds(psi, ops, N, sym, sector):
 
 
 def nearest_neighbour(terms):
-    return all(max(t[2]) - min(t[2]) <= 1 for t in terms)
+    return all(max(t[2]) - min(t[2]) <= 1 for t in terms if t[2])
 
 
 def check_traces(ctx, case, res, pid="c09"):
@@ -1036,7 +1104,7 @@ def oracles(ctx, case, res):
         # state is stationary in a space containing H|psi>: it is an eigenstate.
         atmax = "start"
         if case["kind"] in ("lowD", "tol"):
-            free2 = (nproj == 0 and nearest_neighbour(case["terms"]) and case["opts_svd"].get("D_total", 0) >= 2 ** (N // 2)
+            free2 = (nproj == 0 and nearest_neighbour(case["terms"]) and (case["opts_svd"] or {}).get("D_total", float("inf")) >= 2 ** (N // 2)
                      and all(o.method == "2site" and o.max_discarded_weight is not None and o.max_discarded_weight <= 1e-13 for o in outs[-2:]))
             atmax = "bonds" if has_maximal_bonds(psi, ops, N, case["sym"], sector) else "2site-untruncated" if free2 else None
         if not conv:
@@ -1122,6 +1190,13 @@ def run_case(ctx, case):
     ctx.count(f"precompute:{case['precompute']}")
     ctx.count(f"nproj:{case['nproj']}")
     ctx.count(f"nsplit:{case['nsplit']}")
+    ctx.count("H_as:" + ("mpo" if isinstance(res["H"], (list, tuple)) is False else type(res["H"]).__name__ + ("-of-1" if len(res["H"]) == 1 else "")))
+    ctx.count("opts_svd:" + svd_label(case["opts_svd"]))
+    ctx.count("opts_eigs:" + ("None(default)" if case.get("use_default_eigs") else "+".join(sorted(case["opts_eigs"]))))
+    ctx.count("energy_offset:" + next(("negative" if t[0] < 0 else "positive" for t in case["terms"] if not t[2]), "none"))
+    if case["nproj"]:
+        ctx.count("project_as:" + case.get("project_container", "list"))
+    ctx.count("defaults_omitted", int(bool(case.get("omit_defaults"))))
     if not case.get("warm_start"):
         ctx.count("init:" + ("product_mps" if case.get("init") == "product" else "random_mps") + ":D=" +
                   ("1" if case["D_total"] == 1 else "2-3" if case["D_total"] < 4 else ">=4") +
@@ -1150,10 +1225,13 @@ def restart_case(ctx, rng, base, res):
         return
     case = {k: v for k, v in base.items() if k not in ("warm_state", "project_states", "variants", "energy_tol", "Schmidt_tol",
                                                        "iterator", "init", "occ")}
-    case.update({"kind": "restart", "methods": [rng.choice(["1site", "2site"]) for _ in range(rng.choice([1, 1, 2]))],
+    methods = [rng.choice(["1site", "2site"]) for _ in range(rng.choice([1, 1, 2]))]
+    case.update({"kind": "restart", "methods": methods,
+                 "opts_svd": gen_opts_svd(rng, (base.get("opts_svd") or {}).get("D_total", 64), methods),
+                 "hcontainer": rng.choice(["bare", "bare", "list", "tuple", "tuple"]), "omit_defaults": rng.random() < 0.3,
                  "warm_start": {"gauge": rng.choice(WARM_GAUGES), "site": rng.randrange(base["N"]), "base": _case_json(base)},
                  "precompute": rng.random() < 0.5, "nsplit": rng.choice([1, 1, 2, 3]),
-                 "opts_eigs": {"hermitian": True, "ncv": rng.choice([3, 4, 6]), "which": "SR"},
+                 "opts_eigs": gen_opts_eigs(rng),
                  "Schmidt_tol": None, "use_default_eigs": rng.random() < 0.25})
     case["warm_state"] = res["psi"]
     ctx.count("restart_gauge:" + case["warm_start"]["gauge"])
@@ -1278,7 +1356,12 @@ def run(ctx):
                 "reported energies; 'restart' cases: dmrg_ called again for 1-2 sweeps on the output of an earlier case handed in "
                 "as returned / right- / left- / mixed-canonical / non-canonical (0.5psi+0.5psi): energy must not rise above that of "
                 "the input state; initial states of 'trace' cases are not canonical, canonize_(to='first') or canonize_(to='last'), "
-                "bond dimension 1..8. Every case is run on the real dmrg_ under the "
+                "bond dimension 1..8. Argument forms drawn independently for every case: H handed over as a bare MPO / one-element "
+                "list or tuple / list / tuple of MPOs, `project` as list or tuple, opts_svd = {D_total, tol} / {D_total} / {tol} / {} "
+                "(no truncation) / None (only when all sweeps are '1site'), opts_eigs = None or a user dictionary {hermitian: True} "
+                "with `ncv` (3, 4, 6) and `which` ('SR') each named or left to the documented default of yastn.eigs, arguments equal "
+                "to their documented default passed or omitted (30%), and with probability 0.4 a constant energy offset c*identity, "
+                "|c| in 0.5..6 of either sign, added to H. Every case is run on the real dmrg_ under the "
                 "run-time monitor, its event trace is diffed with the Lean model and stamp-checked, and the dense oracles "
                 "(with penalties: for H' = H + sum_i p_i|phi_i><phi_i|) are evaluated. Non-trivial = every case (distinct by "
                 "full input).")
